@@ -163,3 +163,13 @@ Definition sub_self_described (p sd : fdef) : bool :=
                | None => match fd_index p with None => true | Some _ => false end
                end
   end.
+
+(* the holder of a resolved sub-field: the last ancestor when it has no properties *)
+Definition subfield_holder (anc : list (str * fdef)) : option fdef :=
+  match rev anc with
+  | (_, p) :: _ => match fd_props p with [] => Some p | _ :: _ => None end
+  | [] => None
+  end.
+(* F12b guard on a resolved field: nothing to check unless it is a sub-field *)
+Definition subfield_ok (anc : list (str * fdef)) (d : fdef) : bool :=
+  match subfield_holder anc with Some p => sub_self_described p d | None => true end.
